@@ -206,6 +206,10 @@ let handle () =
     let s = read_sig () in
     let n = next_int () in let names = read_names () in
     string_of_cex (mask_none_cex (pl s) (nat_of_int n) names)
+  | "partialnone" ->
+    let s = read_sig () in
+    let n = next_int () in let names = read_names () in
+    string_of_cex (partial_none_cex (pl s) (nat_of_int n) names)
   | "partialexact" ->
     let r = read_sig () in let s = read_sig () in
     let n = next_int () in let names = read_names () in
